@@ -231,11 +231,11 @@ def _accumulators(ctx):
                        "consumption) they are added a second time and the reported dispatch at the node no longer nets to zero" % (
                            "is reset only under a condition (`%s`)" % au.short(guarded[0].test, 50) if guarded else "is not reset right before the loop"),
                        node=(guarded[0] if guarded else st), ok_detail="reset by `%s`" % (au.short(resets[-1], 40) if resets else ""))
-    ctx.require(n_i >= 2, "fewer than 2 accumulated report columns found in io")
+    ctx.require(n_i >= 2, "fewer than 2 accumulated report columns found in io", rules=['C01.j'])
 
     # anchor: the order book collects its rows in a loop; if it never re-initialises the collection there is nothing to judge
     ob = p.fn_opt("OrderBook.setup_optim_problem")
-    ctx.require(ob is not None, "OrderBook.setup_optim_problem vanished")
+    ctx.require(ob is not None, "OrderBook.setup_optim_problem vanished", rules=['C20.g'])
     if not any(o.rule == "C20.g" for o in ctx.obs):
         roles = local_roles(ob)
         grows = [s for lp in au.walk_stmts(ob.body) if isinstance(lp, (ast.For, ast.While)) for s in au.walk_stmts(lp.body)
@@ -304,5 +304,5 @@ def run(ctx):
                 ctx.ob(rid, fn, "%s%s grow together" % ((o + ": ") if o else "", ", ".join(present)), ok, detail, node=first,
                        ok_detail="%d growth event(s) each" % len(ref))
     _accumulators(ctx)
-    ctx.require(n_var >= 4, "fewer than 4 functions grow at least two of c / l / u")
-    ctx.require(n_row >= 6, "fewer than 6 functions grow at least two of A / b / cType")
+    ctx.require(n_var >= 4, "fewer than 4 functions grow at least two of c / l / u", rules=['C07.c'])
+    ctx.require(n_row >= 6, "fewer than 6 functions grow at least two of A / b / cType", rules=['C07.d'])
